@@ -123,7 +123,7 @@ CHECKS = {
         "lines of the listed notes (line count and every other line unchanged), split/join loses no character. Idempotence at store level is C06_quiescent. "
         "Tied to the code by `db create` / `db reindex` on generated directories (new notes of every kind, long create dates, sections, several pages), "
         "diffing every file byte against the model and against an independent reading; second reindex must change nothing.",
-        note=NOTE_STD + "File system atomic (crash windows are C13). Create dates outside 2000-2099 and a modify-date-like first word without ZID are recorded known findings.",
+        note=NOTE_STD + "File system atomic (crash windows are C13). Create dates outside 2000-2099, a modify-date-like first word without ZID and a page that is also reachable through a symbolic link inside the notes directory (the link name's file) are recorded known findings.",
         technique="Lean 4 proof (first-line surgery shape lemmas, minimal diff) + file-byte correspondence",
         design="§4 C05",
     ),
